@@ -65,6 +65,14 @@ CHECKS = {
    technique="exhaustive DFS over interleavings of local operations and peer packets on the real VsockConnectionManager against a reference peer tracking both credit windows and both byte streams; byte counters preset near 2^32 through a cfg hook; checked and release profiles",
    text="Every interleaving up to the stated depth of send/recv of several sizes, update_credit, poll and peer RW / CREDIT_UPDATE (consume, shrink, grow) / CREDIT_REQUEST packets, for per-connection capacities 1, 3 and 4 and counter presets that wrap inside the window: every transmitted header must carry correct addressing, length, type, buf_alloc = capacity and fwd_cnt = bytes read (mod 2^32); a send is accepted exactly when it fits the peer's last advertised free space and otherwise refused with exactly one outstanding credit request; bytes read equal bytes the peer sent, in order.",
    note="Trusts the reference peer (lab/src/c17.rs) written from virtio spec 5.10.6.3; peer honours the advertised credit."),
+ "C18": dict(level="model_checking", design="DESIGN.md §4 C18",
+   technique="exhaustive DFS over sequences of local operations and peer packets on the real VsockConnectionManager in lock-step with a reference model of the connection table; every (peer, port) pair is compared after every step",
+   text="Every sequence up to the stated depth over listen/unlisten/connect/send/recv/shutdown/force_close/update_credit/poll and peer REQUEST/RESPONSE/RST/SHUTDOWN/RW/CREDIT_UPDATE/CREDIT_REQUEST/invalid/unknown packets for two peers (differing in port only, resp. cid only) x two local ports, for our cid and a foreign one: events and errors returned, packets emitted with their addressing, connection existence/established state/buffered bytes of all four pairs and local-port usage must equal the model; after every polled packet, whatever its outcome, all 8 receive buffers are posted again.",
+   note="Trusts the reference connection-table model (lab/src/c18.rs). Peers honour the advertised credit."),
+ "C19": dict(level="model_checking", design="DESIGN.md §4 C19",
+   technique="deviation-bounded DFS (CHESS-style) over device completion order, burst size and written length on the real OwningQueue (vsock receive, sound events) and VirtIOInput event queue, for runs of 4x the queue size",
+   text="Runs of 32 (vsock) and 128 (input, sound) events so that every buffer is reused several times; all executions with up to the stated number of departures from oldest-first / burst 1 / full length are explored: each event is delivered once, in completion order, with exactly the device's bytes, and after every poll every token is either posted or awaiting consumption exactly once (the consumed buffer is re-posted under the same token before the call returns).",
+   note="Trusts the reference event device (lab/src/c19.rs). Short writes into input/sound event buffers are device faults and belong to C07."),
 }
 
 NOT_YET = "check not built yet in this round (machinery under construction; see DESIGN.md)"
